@@ -32,13 +32,15 @@ def run(pid, path, build):
     subprocess.run([os.path.join(os.path.dirname(build), "build.sh")], env=env, check=False)
     impl = subprocess.run([os.path.join(build, "pgh"), "run", ops], capture_output=True, text=True).stdout.splitlines()
     outs = {}
-    for index in ("flat", "chain"):
+    for index in ("flat", "chain", "phys"):
         outs[index] = subprocess.run("ulimit -s unlimited 2>/dev/null; %s %s %s" % (os.path.join(build, "ocaml", "modelrun"), index, ops),
                                      shell=True, capture_output=True, text=True).stdout.splitlines()
     os.unlink(ops)
     n = 0
     for i, line in enumerate(impl):
         m = outs["chain"][i] if i < len(outs["chain"]) else "<none>"
+        if line.startswith("phys "):
+            m = outs["phys"][i] if i < len(outs["phys"]) else "<none>"
         if line != m and not line.startswith("ev re"):
             print("line %d differs:\n  implementation: %s\n  model (chain)  : %s" % (i, line[:300], m[:300]))
             n += 1
